@@ -83,6 +83,7 @@ type Annot struct { // things attached to a cut or a loop head
 	Derive     []EnsuresClause // proved after havoc from the assumed invariants (small VCs), then assumed
 	GhostPost  []GhostStmt     // ghost updates after havoc/assume
 	Forget     bool            // "+ forget": restart the path condition from the enclosing loop head
+	Stop       bool            // "+ stop": end the path here (after the assertions of the cut)
 	Assumes    []*SpecExpr     // only allowed with explicit "assumed" justification; listed in evidence
 }
 
@@ -368,6 +369,10 @@ func ParseContracts(file string) ([]*Contract, error) {
 					nm = fmt.Sprintf("d%d", len(ann.Derive)+1)
 				}
 				ann.Derive = append(ann.Derive, EnsuresClause{nm, e})
+			case "stop":
+				// the analysis of the path ends at this cut, after its invariants have been asserted: the contract
+				// speaks about the part of the function up to here (an entry guard), not about what follows
+				ann.Stop = true
 			case "forget":
 				// after this cut only the facts known at the head of the enclosing annotated loop (or at function
 				// entry) and the cut's own invariants are kept: the classical cut-point rule (fewer hypotheses: sound)
